@@ -1,0 +1,31 @@
+//! Verification hook H2 (only compiled with `--cfg rustfft_verif`).
+//!
+//! A crate-local `is_x86_feature_detected!` that ANDs the real detection result with a process-global mask.
+//! It can only *hide* features that the CPU really has, never invent them.
+
+use std::sync::atomic::{AtomicU32, Ordering};
+
+pub const FEATURE_AVX: u32 = 1;
+pub const FEATURE_FMA: u32 = 2;
+pub const FEATURE_AVX2: u32 = 4;
+pub const FEATURE_SSE41: u32 = 8;
+
+pub static FEATURE_MASK: AtomicU32 = AtomicU32::new(u32::MAX);
+
+#[inline]
+pub fn masked(name: &str, detected: bool) -> bool {
+    let bit = match name {
+        "avx" => FEATURE_AVX,
+        "fma" => FEATURE_FMA,
+        "avx2" => FEATURE_AVX2,
+        "sse4.1" => FEATURE_SSE41,
+        _ => 0,
+    };
+    detected && (bit == 0 || FEATURE_MASK.load(Ordering::Relaxed) & bit != 0)
+}
+
+macro_rules! is_x86_feature_detected {
+    ($feature:tt) => {
+        crate::verif_mask::masked($feature, std::is_x86_feature_detected!($feature))
+    };
+}
